@@ -305,8 +305,8 @@ def sequence_case(min_saves, max_saves, max_loads, max_faults):
 
 
 ORACLES = [
-    Oracle("save_load_sequence", sequence_case(1, 8, 10, 3), check_sequence, classify=classify, quick=160, thorough=300),
-    Oracle("save_load_many_postfixes", sequence_case(4, 8, 12, 2), check_sequence, classify=classify, quick=80, thorough=200),
-    Oracle("save_load_sequence_long", sequence_case(8, 20, 30, 6), check_sequence, classify=classify, quick=0, thorough=40),
+    Oracle("save_load_sequence", sequence_case(1, 8, 10, 3), check_sequence, classify=classify, quick=160, thorough=1500),
+    Oracle("save_load_many_postfixes", sequence_case(4, 8, 12, 2), check_sequence, classify=classify, quick=80, thorough=1000),
+    Oracle("save_load_sequence_long", sequence_case(8, 20, 30, 6), check_sequence, classify=classify, quick=0, thorough=200),
 ]
 SHARDS = {"quick": 4, "thorough": 16}
